@@ -72,4 +72,15 @@ def finalStatus : TaskOutcome → Status
   | .done .. => .done
   | _ => .failed
 
+/-- `BuildTask.cmake_build_sys` (valjean/cosette/code.py): the configure command is run on its own; if it does not
+exit with 0 its status is returned and the build command is not run; otherwise the status is that of the build command.
+Both write to the same log (here: the accumulated records are appended). -/
+def buildSys (configure build : Cli) : RunRes :=
+  match run [configure] with
+  | .finished .done acc1 =>
+    (match run [build] with
+     | .finished st acc2 => .finished st ⟨acc1.codes ++ acc2.codes, acc1.out ++ acc2.out, acc1.err ++ acc2.err⟩
+     | .raised acc2 => .raised ⟨acc1.codes ++ acc2.codes, acc1.out ++ acc2.out, acc1.err ++ acc2.err⟩)
+  | other => other
+
 end RunCmd
